@@ -335,7 +335,8 @@ def c12(res, tier, deadline):
     else:
         sp = ("n=1-5,k=1,d=2;n=1-5,k=2,d=1;n=1-4,k=3,d=1;n=1-3,k=4,d=1,pres=full|direct;"
               "n=1-4,k=2,d=2,pres=full|direct;n=4,k=4,d=0;"
-              "n=1-4,k=1,d=2,vp=1;n=1-4,k=2,d=1,vp=1;n=1-4,k=3,d=1,vp=1;n=1-3,k=4,d=1,vp=1,pres=full")
+              "n=1-4,k=1,d=2,vp=1;n=1-4,k=2,d=1,vp=1;n=1-4,k=3,d=1,vp=1;n=1-3,k=4,d=1,vp=1,pres=full;"
+              "n=5,k=3,d=1,pres=full;n=4,k=4,d=1,pres=full;n=6,k=2,d=1,pres=direct;n=5,k=2,d=2,pres=full")
     runs = [Run("rel", "offsets", sp), Run("dbg", "offsets", sp, variant="assert")]
     e1.execute(res, runs, deadline_total=deadline, second_oracle=False)
     engines.gen2_stage(res, "OFFSETS", tier)
@@ -364,7 +365,8 @@ def c13(res, tier, deadline):
     else:
         sp = ("n=1-5,set=UUB,d=1,pres=full|direct;n=1-4,set=UBT,d=1,pres=full|direct;"
               "n=1-6,set=U,d=1;n=1-4,set=BB,d=1;n=1-3,set=UBQ,d=1;n=1-5,set=UUB,d=0;"
-              "n=1-5,set=B,d=2;n=1-4,set=B,d=3;n=1-4,set=UB,d=2;n=1-4,set=T,d=2;n=1-3,set=BT,d=2;n=1-3,set=Q,d=2")
+              "n=1-5,set=B,d=2;n=1-4,set=B,d=3;n=1-4,set=UB,d=2;n=1-4,set=T,d=2;n=1-3,set=BT,d=2;n=1-3,set=Q,d=2;"
+              "n=6,set=UB,d=1;n=5,set=UBT,d=1,pres=direct;n=5,set=B,d=3;n=4,set=BB,d=2")
     runs = [Run("rel", "encode", sp), Run("rel", "encode", "n=1-4,set=UUB,d=1,pres=full|direct;n=1-3,set=UBT,d=1", variant="asan"),
             Run("dbg", "encode", "n=1-4,set=UUB,d=1", variant="assert"),
             Run("rel", "encode", "n=1-4,set=UUB,d=1,pres=split;n=1-4,set=UBT,d=1,pres=split;n=5,set=UB,d=1,pres=split",
